@@ -12,6 +12,10 @@ def check(tier):
     dl = Deadline(480 if tier == "quick" else 3300)
     star = [diff.Config("magic-all", "interp", 1, extra=("--magic-transform=*",))]
     plain_and_star = [diff.Config("default", "interp", 1)] + star
+    # (0) chains of six unary strata with every sign vector (one relation needed under several differently negated contexts)
+    nc = gen2.family_negchain(tier)
+    diff.differential(rep, nc, gen2.dbs_negchain()[:2] if tier == "quick" else gen2.dbs_negchain(), star, "negchain", batch_size=60, deadline=dl)
+    rep.sample({"family": "negchain", "cases": len(nc), "example": nc[777].desc, "config": "--magic-transform=*"}, cap=20)
     # (1) all families under --magic-transform=*
     for name, cases, dbs in families.compiled_slice("quick"):
         if dl.expired():
@@ -44,7 +48,7 @@ def check(tier):
             names = ",".join("%s_%d" % (role, c.cid) for c in ch)
             cfg = [diff.Config("magic-" + role, "interp", 1, extra=("--magic-transform=" + names,))]
             diff.differential(rep, ch, gen.dbs_core_quick()[-6:], cfg, "subset-%s-%d" % (role, ch_i), batch_size=150, deadline=dl)
-    rep.set("rule", "all families under --magic-transform=*; the core family (constants in body atoms = bound arguments) under every assignment of "
+    rep.set("rule", "chains of 6 unary strata (every sign vector, optional second earlier relation) and all families under --magic-transform=*; the core family (constants in body atoms = bound arguments) under every assignment of "
             "{none, magic, no_magic} to its two IDB relations with and without --magic-transform=*, and under --magic-transform=<all p> / <all q>")
     return rep.finish()
 
